@@ -225,7 +225,7 @@ fn run_align<T: Alignment>(cfg: &Cfg, log: &mut Log, label: &str, part: usize) {
         }
     }
     // long random histories
-    let nrand = if cfg.thorough { 200_000 } else { 2_000 } / cfg.nshards.max(1) * cfg.scale;
+    let nrand = if cfg.thorough { 40_000 } else { 2_000 } / cfg.nshards.max(1) * cfg.scale;
     let mut r = Rng::new(cfg.seed ^ (part as u64) << 32 ^ cfg.shard as u64);
     for i in 0..nrand {
         let n = if cfg.thorough { 60 } else { 200 };
